@@ -540,6 +540,56 @@ let run_case line =
         | JBucket None -> "-"
         | JBucket (Some b) -> "[" ^ String.concat "." (List.map (fun x -> string_of_int (int_of_z x)) b) ^ "]"
         | JBool b -> if b then "1" else "0") rs)
+  | "chansearch" :: which :: cap :: n :: "L" :: lim :: _ ->
+      (* breadth-first search of the channel model for a lost wake-up: a sender asleep in front of a free slot,
+         or the receiver asleep in front of a queued message, with nobody left to wake them.  A search for a
+         replay, never evidence.  Each sender sends at most twice; spurious wake-ups are not explored. *)
+      let prog = (match which with "gen" -> chan_gen | "fixed" -> chan_fixed | _ -> failwith "chansearch: gen|fixed") in
+      let cap = ios cap and n = ios n and limit = ios lim in
+      let nn = nat_of_int in
+      let picks = None :: List.init n (fun y -> Some (nn y)) in
+      let labels =
+        List.concat (List.init n (fun x -> (LBegin (nn x), x) :: List.map (fun pk -> (LS (nn x, pk, false), -1)) picks))
+        @ List.concat (List.map (fun pk -> [(LR (pk, false), -1); (LR (pk, true), -1)]) picks) @ [(LHandled, -1)] in
+      let lab_str l = (match l with
+        | LBegin x -> Printf.sprintf "start%d" (int_of_nat x)
+        | LS (x, pk, _) -> Printf.sprintf "s%d%s" (int_of_nat x) (match pk with Some y -> Printf.sprintf "(notify %d)" (int_of_nat y) | None -> "")
+        | LR (pk, sp) -> Printf.sprintf "r%s%s" (match pk with Some y -> Printf.sprintf "(notify %d)" (int_of_nat y) | None -> "") (if sp then "*" else "")
+        | LHandled -> "handled") in
+      let seen = Hashtbl.create 100000 in
+      let q = Queue.create () in
+      let s0 = c_init (nn cap) (nn n) in
+      let b0 = List.init n (fun _ -> 2) in
+      Queue.add (s0, b0, []) q;
+      Hashtbl.replace seen (Marshal.to_string (s0, b0) []) ();
+      let found = ref None and count = ref 0 in
+      while !found = None && not (Queue.is_empty q) && !count <= limit do
+        let (s, bud, path) = Queue.pop q in
+        incr count;
+        List.iter (fun (l, starter) ->
+          if !found = None then begin
+            let bud' = if starter >= 0 then (if List.nth bud starter > 0 then Some (List.mapi (fun i b -> if i = starter then b - 1 else b) bud) else None) else Some bud in
+            match bud' with
+            | None -> ()
+            | Some bud' ->
+              (match c_step prog s l with
+               | None -> ()
+               | Some s' ->
+                   let key = Marshal.to_string (s', bud') [] in
+                   if not (Hashtbl.mem seen key) then begin
+                     Hashtbl.replace seen key ();
+                     let path' = l :: path in
+                     if c_bad s' then found := Some (List.rev path', s') else Queue.add (s', bud', path') q
+                   end)
+          end) labels
+      done;
+      (match !found with
+       | Some (path, s) ->
+           Printf.sprintf "FOUND states=%d | %s | occ=%d cap=%d avail=%d recv=%d senders=%s" !count
+             (String.concat " " (List.map lab_str path))
+             (int_of_nat (x_c_occ s)) (int_of_nat (x_c_cap s)) (int_of_nat (x_c_avail s)) (int_of_nat (x_c_recv s))
+             (String.concat "," (List.map (fun (pc, (i, w)) -> Printf.sprintf "%d%s%s" (int_of_nat pc) (if i then "i" else "") (if w then "w" else "")) (x_c_senders s)))
+       | None -> Printf.sprintf "NONE states=%d%s" !count (if !count > limit then " state-limit-reached" else ""))
   | "crw" :: ops ->
       let op_of tok = match split_on ',' tok with
         | ["c"; i] -> CClone (nat_of_int (ios i))
